@@ -101,9 +101,26 @@ PROPS["C07"] = dict(
     assumptions=["SingleObjective order laws (preamble/objective.rs) = C09 obligations"],
 )
 
+PROPS["C08"] = dict(
+    level="other",
+    explanation=("Verus: Configuration::optimize_with / optimize extracted verbatim: the state handed to run() is exactly what the user's "
+                 "initialiser left if it contains a generator (never replaced), else that state plus one default generator. The 2-safety and "
+                 "schedule clauses (same seed => same run, sequential vs parallel, cloned configuration, child generators) are decided only by "
+                 "a bounded native run of the shipped templates."),
+    verus=[dict(name="optimize", template="contracts/C08/optimize.vrs", expect=["Configuration<P>::optimize_with", "Configuration<P>::optimize"])],
+    kani=[],
+    native=[dict(files=["contracts/C07/whole_run_native.rs", "contracts/C08/c08_native.rs"],
+                 harnesses={"c08_native_determinism": dict(anchor="whole runs of the shipped templates (determinism) + Random",
+                            bound="BOUNDED STAND-IN, native run: 19 shipped templates x seeds {1,2} x {sequential twice, cloned configuration, parallel evaluator 3 times}, 8 iterations; generator and child-generator streams for 4 seeds")})],
+    min_obligations={"quick": 3, "thorough": 3},
+    uncovered=["thread-schedule independence beyond the schedules rayon happens to produce in 3 repetitions", "the two ACO templates",
+               "RandomIter::next / Random::with_rng under contract (struct holding &mut / fn-pointer closure: Verus rejects)"],
+    assumptions=["Random::default() is modelled as one unknown value per execution (both functions call it at most once)",
+                 "State::insert / contains as in the C01 registry contracts; Configuration::run as proved by the C03 unit"],
+)
+
 NOT_YET = "not claimed yet in this commit: unit under construction (see DESIGN.md §4 for the planned contracts)"
 NOT_APPLICABLE = {
-    "C08": "schedule/thread independence and run-to-run determinism: Kani has no threads, Verus would need its own permission types inside rayon; determinism of two runs is a 2-safety property with no per-call contract; the one contract-shaped clause (optimize_with keeps a supplied generator) sits behind State + eyre, which neither verifier reaches (DESIGN.md §2 facts 6, 7, 18; §6)",
     "C16": "whole-run property of 21 template compositions of dyn components over State; no function-level contract decides it, and composing per-component stack-effect contracts needs an interpreter of the template tree, i.e. a model (DESIGN.md §6)",
     "C18": "all mechanisms live in State-based execute bodies built from multizip loops and f64 arithmetic; Verus rejects iterator adapters and float negation and treats f64 as uninterpreted, Kani cannot enter State (DESIGN.md §2 facts 7, 19; §6)",
     "C19": "iterator chains, powf and WeightedIndex sampling inside State-based execute bodies; the stated invariants are numerical (DESIGN.md §6)",
